@@ -2,7 +2,7 @@ use harper_core::Lrc;
 use harper_core::Token;
 use harper_core::parsers::{Markdown, MarkdownOptions, Parser};
 
-use super::without_initiators;
+use super::{Unit, without_initiators};
 
 #[derive(Clone)]
 pub struct Go {
@@ -25,20 +25,19 @@ impl Parser for Go {
         let mut actual_source = actual.get_content(source);
 
         if matches!(actual_source, ['g', 'o', ':', ..]) {
-            let Some(terminator) = source.iter().position(|c| *c == '\n') else {
+            // Skip the directive line. The newline is looked up in the same slice the offset is
+            // applied to (the comment without its initiators), not in the raw comment.
+            let Some(terminator) = actual_source.iter().position(|c| *c == '\n') else {
                 return Vec::new();
             };
 
             actual.start += terminator;
-
-            let Some(new_source) = actual.try_get_content(actual_source) else {
-                return Vec::new();
-            };
-
-            actual_source = new_source
+            actual_source = &actual_source[terminator..];
         }
 
-        let mut new_tokens = self.inner.parse(actual_source);
+        // The remainder may span several `//` lines: strip the initiators of every line (a
+        // tab-indented continuation line would otherwise be read as an indented code block).
+        let mut new_tokens = Unit::new(self.inner.clone()).parse(actual_source);
 
         new_tokens
             .iter_mut()
